@@ -277,6 +277,10 @@ def publication(ctx, rule, modname, qual, live, what):
             sn = g.node_of(s.node)
             if sn is None or rn is None:
                 continue
+            if s.op in ("write", "create", "meta") and s.via is None and _may_name(ctx.program, fi, s, r):
+                ctx.fail(rule, fi, f"published-path-written-in-place:{qual}",
+                         f"{qual}: `{_ast.unparse(s.node)[:60]}` (line {s.node.lineno}) can operate on the very path the rename publishes to (`{r.path}`) instead of the temporary: "
+                         f"readers see {what} while it is being written, and a crash leaves it truncated", node=s.node)
             if s.op == "delete" and s.path == r.path and (rn in g.reach([sn]) or sn is rn):
                 ctx.fail(rule, fi, f"live-entry-removed-before-rename:{qual}",
                          f"{qual} deletes `{s.path}` (line {s.node.lineno}{', via ' + s.via if s.via else ''}) and only then renames the new data onto it: between the two steps neither the "
@@ -286,6 +290,87 @@ def publication(ctx, rule, modname, qual, live, what):
                          f"{qual} still writes `{s.path}` (line {s.node.lineno}{', via ' + s.via if s.via else ''}) after the rename that made {what} visible: a crash in between leaves a listed "
                          f"entry that lacks that file", node=s.node)
     return len(renames)
+
+
+def _may_name(prog, fi, site, ren):
+    """can the path expression of ``site`` evaluate to the rename's destination?  (same text with the same reaching
+    definitions is not enough to tell, so only *aliases* are followed: the site's path is a local one of whose reaching
+    definitions is the destination's name, or the expression the destination was defined from)"""
+    import ast
+    from . import astutil as A
+    if site.path == ren.path:
+        # the same local: only a hit when some definition reaching the site differs from those reaching the rename's source
+        return ren.src_path is not None and site.path != ren.src_path
+    fx = effects.engine(prog).fx(fi)
+    try:
+        pe = ast.parse(site.path, mode="eval").body
+        de = ast.parse(ren.path, mode="eval").body
+    except SyntaxError:
+        return False
+    if not isinstance(pe, ast.Name):
+        return False
+    dest_vals = {ren.path}
+    if isinstance(de, ast.Name):
+        dest_vals |= {A.unparse(v) for t, v, st in A.assignments(fi.node, de.id)}
+    for d in fx.defs_at(pe.id, site.node):
+        if d.value is not None and d.kind == "assign" and A.unparse(d.value) in dest_vals:
+            return True
+    return False
+
+
+def staged_publication_class(ctx, rule, modname, clsname, what):
+    """A class that stages under ``self.<S>`` and publishes with ``os.rename(self.<S>, self.<D>)``: in all of its methods the
+    only filesystem operation that may name the published path D is that rename — no open-for-write, create, chmod or
+    delete (a failure clean-up that unlinks D removes the *previous* good copy).  D is recognised by value: ``self.D``, the
+    local assigned to it, and that local's defining expression."""
+    import ast
+    from . import astutil as A
+    from . import fsfx
+    K = ctx.program.cls(modname, clsname)
+    ren = None
+    for m in K.methods.values():
+        for c in A.calls(m.node):
+            if A.unparse(c.func) in ("os.rename", "os.replace") and len(c.args) == 2 and m.params():
+                s_, d_ = A.self_attr(c.args[0], m.params()[0]), A.self_attr(c.args[1], m.params()[0])
+                if s_ and d_:
+                    ren = (m, c, s_, d_)
+    ctx.require(ren is not None, f"{modname}:{clsname}: no os.rename(self.<staged>, self.<published>) found")
+    _, rcall, S, D = ren
+    eng = fsfx.engine(ctx.program)
+    n = 0
+    for m in K.methods.values():
+        if not m.params():
+            continue
+        me = m.params()[0]
+        vals = {S: {f"{me}.{S}"}, D: {f"{me}.{D}"}}
+        for t, v, st in A.assignments(m.node):
+            targets = t.elts if isinstance(t, ast.Tuple) else [t]
+            vs = v.elts if isinstance(t, ast.Tuple) and isinstance(v, ast.Tuple) and len(v.elts) == len(targets) else [v] * len(targets)
+            for tt, vv in zip(targets, vs):
+                a = A.self_attr(tt, me)
+                if a in vals:
+                    vals[a].add(A.unparse(vv))
+                    if isinstance(vv, ast.Name):
+                        for _t, dv, _s in A.assignments(m.node, vv.id):
+                            vals[a].add(A.unparse(dv))
+        live = vals[D] - vals[S]
+        for s in eng.direct(m):
+            if s.node is rcall:
+                continue
+            n += 1
+            ptxt = {s.path}
+            try:
+                pe = ast.parse(s.path, mode="eval").body
+                if isinstance(pe, ast.Name):
+                    ptxt |= {A.unparse(dv) for _t, dv, _s in A.assignments(m.node, pe.id)}
+            except SyntaxError:
+                pass
+            if ptxt & live and s.op in ("write", "create", "delete", "meta", "rename"):
+                ctx.fail(rule, m, f"published-path-touched:{s.op}", f"{clsname}.{m.name}: `{A.unparse(s.node)[:60]}` ({s.op}) names the published path (`self.{D}`) rather than the staged one "
+                         f"(`self.{S}`): {what} that readers see is only ever to change by the rename in {ren[0].name}"
+                         + (" — removing it on failure deletes the previous good copy" if s.op == "delete" else ""), node=s.node)
+    ctx.ob(rule, K, f"{clsname}: {n} filesystem operations in its methods, none but the rename names the published path self.{D}")
+    return n
 
 
 def per_item_isolation(ctx, rule, modname, qual, item_call, what):
@@ -393,6 +478,12 @@ def classic_slips(ctx, rule, files):
         for K in m.classes.values():
             for node, tag, msg in lints.copy_drops_field(ctx.program, K):
                 ctx.fail(rule, K, tag, msg, node=node)
+            for node, tag, msg in lints.cached_injected_result(K):
+                ctx.fail(rule, K, tag, msg, node=node)
+            for node, tag, msg in lints.lazy_parse_not_invalidated(ctx.program, K):
+                ctx.fail(rule, K, tag, msg, node=node)
+            for node, tag, msg in lints.closes_borrowed_handle(K):
+                ctx.fail(rule, K, tag, msg, node=node)
             for node, tag, msg in lints.optional_falsy_truthiness(ctx.program, K):
                 meth = next((f for f in K.methods.values() if f.node.lineno <= node.lineno <= (f.node.end_lineno or 0)), K)
                 report(meth, node, tag, msg)
@@ -403,7 +494,7 @@ def classic_slips(ctx, rule, files):
             n += 1
             nested = ".<locals>." in fi.qual
             for f in (lints.dup_operands, lints.strip_charset, lints.cached_mutable, lints.broad_try_around_loop, lints.open_without_trunc, lints.unused_result,
-                      lints.stored_iterator, lints.seq_equal_by_zip, lints.quantity_truthiness, lints.swallowed_fs_failure, lints.errno_tolerance_around_loop):
+                      lints.stored_iterator, lints.seq_equal_by_zip, lints.quantity_truthiness, lints.swallowed_fs_failure, lints.errno_tolerance_around_loop, lints.stale_precomputed_hash):
                 if nested:
                     continue  # the enclosing function's walk already covers nested bodies
                 for node, tag, msg in f(fi.node):
@@ -418,7 +509,7 @@ def classic_slips(ctx, rule, files):
     ctx.ob(rule, "classic slips", f"{n} functions in {len(files)} file(s): no duplicated operand, prefix-by-strip(), shared mutable default, memoised mutable result, "
            "cloned sibling body, module-level alias write, catch-all or errno tolerance around a loop, write-open without truncation, single-pass iterator kept as state, "
            "prefix equality by zip, truth test on a quantity / optional falsy field, swallowed ownership-mode-rename failure, generator call as a statement, "
-           "dataclass copy dropping a field, or keeper detached from rebound state", file=sorted(files)[0] if files else "")
+           "dataclass copy dropping a field, keeper detached from rebound state, attribute assigned after the hash computed from it, or injected callable's result cached unmaterialised", file=sorted(files)[0] if files else "")
     return n
 
 
